@@ -204,6 +204,10 @@ func runC03(c *fw.Ctx, idx int) fw.Result {
 			if !useStdin {
 				a = append(a, "-q", p("aln.fasta"))
 			}
+			if fw.Mix(uint64(idx)+3003)%3 == 0 {
+				// --threshold belongs to --aggregate; without it the per-query report is what is asked for
+				a = append(a, "--threshold", []string{"0.5", "0", "1", "0.25"}[fw.Mix(uint64(idx)+3004)%4])
+			}
 			return boolFlag(a, "hard-gaps", hard, idx%4 == 3 || idx == 2)
 		}, map[bool][]byte{true: []byte(aln), false: nil}[useStdin], map[bool]string{true: "", false: "-o"}[idx%3 == 0], got)
 	}
